@@ -36,8 +36,15 @@ func main() {
 	}
 	id := 0
 	for rep := 0; rep < reps; rep++ {
-		for _, n := range sizes {
+		szs := sizes
+		if *tier != "thorough" && rep == 0 {
+			szs = append(append([]int{}, sizes...), 10000) // the largest population once in the quick tier too
+		}
+		for _, n := range szs {
 			for _, mncLen := range []int{2, 3} {
+				if *tier != "thorough" && n == 10000 && mncLen == 3 {
+					continue
+				}
 				msinLen := 5 + r.Intn(6)
 				if 3+mncLen+msinLen > 15 {
 					msinLen = 15 - 3 - mncLen
